@@ -356,6 +356,9 @@ static void run_case(val *c)
 
 int main(int argc, char **argv)
 {
-	if (setlocale(LC_ALL, "C.UTF-8") == NULL) { fprintf(stderr, "no C.UTF-8 locale\n"); return 4; }
+	/* VERIF_LOCALE=C: the same programs in a locale where non-ASCII strings have no multibyte/wide form
+	 * (conversions fail): evaluated by the oracle only */
+	const char *loc = getenv("VERIF_LOCALE");
+	if (setlocale(LC_ALL, loc && *loc ? loc : "C.UTF-8") == NULL) { fprintf(stderr, "no such locale\n"); return 4; }
 	return v_foreach_line(argc > 1 ? argv[1] : NULL, run_case);
 }
